@@ -122,7 +122,10 @@ Record sched_cfg := mkSchedCfg {
   sc_stop_saves : bool            (* stop() then calls save_sensors *)
 }.
 
-Record cfg := mkCfg { c_save : save_cfg; c_sync : sched_cfg; c_async : sched_cfg }.
+Record cfg := mkCfg {
+  c_save : save_cfg; c_sync : sched_cfg; c_async : sched_cfg;
+  c_alert : bool      (* Gateway.alert ends in an unconditional `if persistence: need_save = True` *)
+}.
 
 Inductive flavour := Sync | Async.
 Definition sched_of (c : cfg) (f : flavour) : sched_cfg :=
@@ -138,9 +141,9 @@ Definition save_d10 : save_cfg :=        (* before c907183: flag cleared last, n
   mkSaveCfg [SSer; SRenBak; SRenMain; SRemBak; SClear] 5 [] None true None.
 Definition sched_fixed : sched_cfg := mkSchedCfg h_exception true true true true true.
 Definition sched_d9 : sched_cfg := mkSchedCfg [] true true true true true.   (* before c158c19 *)
-Definition cfg_fixed : cfg := mkCfg save_fixed sched_fixed sched_fixed.
-Definition cfg_d9 : cfg := mkCfg save_fixed sched_d9 sched_d9.
-Definition cfg_d10 : cfg := mkCfg save_d10 sched_fixed sched_fixed.
+Definition cfg_fixed : cfg := mkCfg save_fixed sched_fixed sched_fixed true.
+Definition cfg_d9 : cfg := mkCfg save_fixed sched_d9 sched_d9 true.
+Definition cfg_d10 : cfg := mkCfg save_d10 sched_fixed sched_fixed true.
 
 (* ------------------------------------------------------------------ serialiser *)
 
@@ -362,7 +365,7 @@ Definition step (c : cfg) (fl : flavour) (pol : policy) (s : st) (e : event) : s
   match e with
   | EMsg m =>
       let '(t, a) := apply_msg m (s_tree s) in
-      (mkSt t (s_dirty s || a) (s_fs s) (s_armed s) (s_stopped s) (s_saving s), OMsg a)
+      (mkSt t (s_dirty s || (a && c_alert c)) (s_fs s) (s_armed s) (s_stopped s) (s_saving s), OMsg a)
   | EFire denied =>
       match s_saving s with
       | Some _ => (s, ONoop)
@@ -501,7 +504,8 @@ Definition good_sched (s : sched_cfg) : bool :=
   covers (sc_handler s) FOSError && covers (sc_handler s) FRuntimeError
   && sc_resumes s && sc_rearm s && sc_stop_cancels s && sc_cancel_ok s && sc_stop_saves s.
 
-Definition good (c : cfg) : bool := good_save (c_save c) && good_sched (c_sync c) && good_sched (c_async c).
+Definition good (c : cfg) : bool :=
+  good_save (c_save c) && good_sched (c_sync c) && good_sched (c_async c) && c_alert c.
 
 (* number of sub-steps of an undisturbed fault-free save *)
 Definition save_len (t : tree) (ex : bool) : nat := objs t + 3 + (if ex then 2 else 0).
